@@ -35,6 +35,12 @@ def validate(v, trace, name):
                 # what precedes the missing word on its line?
                 line_start = e["text"].rfind("\n", 0, len("".join(list(e["text"])[:p["s"]]))) + 1
                 sig["multibyte_before"] = any(ord(c) > 127 for c in list(e["text"])[:p["s"]])
+                if e["text"].startswith("#!"):
+                    # is the word in the run of comment lines (blank lines between them allowed) that the shebang opens?
+                    lines = e["text"].split("\n")
+                    li = e["text"].count("\n", 0, p["s"])
+                    if all(x.strip() == "" or x.lstrip().startswith("#") for x in lines[:li + 1]):
+                        sig = {"kind": rej[1], "header_comment_behind_a_shebang": True}
                 if e.get("lang") == "go":
                     # is the word in a run of INDENTED comment lines that starts with a //go: directive?
                     lines = e["text"].split("\n")
